@@ -93,6 +93,7 @@ def parseCase : List String → Option Case
     let tc ← tc.toNat?
     let ta ← ta.toNat?
     parseTail tc ta false true ts
+
   | _ => none
 
 def tupStr (t : Tup) : String := s!"{t.1}:{t.2.1}:{t.2.2.1}:{t.2.2.2}"
@@ -173,17 +174,42 @@ def parseObs : List String → Option Obs
     | _ => none
   | _ => none
 
+/-- `nodes` / `nfine`: the same histories with every call on its own cluster node (HybridStorage); the model
+does not change. -/
+def normKind : List String → List String
+  | "nodes" :: rest => "sched" :: rest
+  | "nfine" :: rest => "fine" :: rest
+  | ts => ts
+
 def fullEvs (c : Case) : List Ev := c.evs ++ drain c.ths.length
 
 def runModel (ts : List String) : String :=
-  match parseCase ts with
+  if ts.head? == some "uniq" then "not-compared" else
+  match parseCase (normKind ts) with
   | some c =>
     if c.fine then "not-compared" else
     obsStr (obs (run .repaired c.p (init c.preC c.preN c.ths) (fullEvs c)))
   | none => "bad-case"
 
+/-- `uniq cs <n> ops <k> …  ##  res <k> <r>* percode <m> <count>*` -/
+def runHoldsUniq (caseToks obsToks : List String) : String :=
+  match caseToks, obsToks with
+  | "uniq" :: "cs" :: n :: "ops" :: k :: _, "res" :: k' :: rest =>
+    match n.toNat?, k.toNat?, k'.toNat? with
+    | some n, some k, some k' =>
+      if k != k' then "false" else
+      match takeN k rest with
+      | some (rs, "percode" :: m :: cs) =>
+        match m.toNat?, cs.mapM String.toNat? with
+        | some m, some cs => if cs.length == m then boolStr (holdsUniq n rs cs) else "false"
+        | _, _ => "false"
+      | _ => "false"
+    | _, _, _ => "false"
+  | _, _ => "false"
+
 def runHolds (caseToks obsToks : List String) : String :=
-  match parseCase caseToks, parseObs obsToks with
+  if caseToks.head? == some "uniq" then runHoldsUniq caseToks obsToks else
+  match parseCase (normKind caseToks), parseObs obsToks with
   | some c, some o =>
     if c.fine then boolStr (holdsCore c.p (c.ths.map callOf) o)
     else boolStr (holds c.p (c.ths.map callOf) (fullEvs c) o)
